@@ -30,9 +30,10 @@ VARIABLES i,         \* next line
           live,      \* fid numbers currently shown to the implementation and not destroyed
           maybe,     \* fid numbers a request may have created without showing them
           nclosed, cclosed,
+          dseen,     \* clunk/remove requests that have seen their fid reported destroyed
           done
 
-mvars == <<i, case, sent, replied, away, answers, called, answeredN, live, maybe, nclosed, cclosed, done>>
+mvars == <<i, case, sent, replied, away, answers, called, answeredN, live, maybe, nclosed, cclosed, dseen, done>>
 
 E == Ext[i]
 
@@ -40,12 +41,12 @@ Verdict(prop, kind, detail) == PrintT(<<"VERDICT", case, prop, kind, detail>>)
 
 Fresh ==
   /\ sent' = <<>> /\ replied' = <<>> /\ away' = {} /\ answers' = <<>> /\ called' = <<>>
-  /\ answeredN' = {} /\ live' = {} /\ maybe' = {} /\ nclosed' = 0 /\ cclosed' = FALSE
+  /\ answeredN' = {} /\ live' = {} /\ maybe' = {} /\ nclosed' = 0 /\ cclosed' = FALSE /\ dseen' = {}
 
 Init ==
   /\ i = 1 /\ case = 0 /\ done = FALSE
   /\ sent = <<>> /\ replied = <<>> /\ away = {} /\ answers = <<>> /\ called = <<>>
-  /\ answeredN = {} /\ live = {} /\ maybe = {} /\ nclosed = 0 /\ cclosed = FALSE
+  /\ answeredN = {} /\ live = {} /\ maybe = {} /\ nclosed = 0 /\ cclosed = FALSE /\ dseen = {}
 
 N == Len(sent)
 IsFlush(n) == sent[n].type = "Tflush"
@@ -61,7 +62,7 @@ OnT ==
   /\ maybe' = maybe \cup (IF E.type = "Tattach" THEN {E.fid}
                           ELSE IF E.type = "Twalk" /\ E.newfid # E.fid THEN {E.newfid}
                           ELSE IF E.type = "Tauth" THEN {E.afid} ELSE {})
-  /\ UNCHANGED <<away, called, answeredN, live, nclosed, cclosed>>
+  /\ UNCHANGED <<away, called, answeredN, live, nclosed, cclosed, dseen>>
 
 (* ---- R ---- *)
 AwayWithTag(tag) == {n \in 1..N : sent[n].tag = tag /\ n \in away /\ replied[n] = 0}
@@ -75,12 +76,12 @@ OnR ==
       late  == AwayWithTag(E.tag) IN
   IF E.bad # ""
     THEN /\ Verdict("C03", "undecodable-reply", E.bad)
-         /\ UNCHANGED <<sent, replied, away, answers, called, answeredN, live, maybe, nclosed, cclosed>>
+         /\ UNCHANGED <<sent, replied, away, answers, called, answeredN, live, maybe, nclosed, cclosed, dseen>>
   ELSE IF cands = {} /\ late = {}
     THEN /\ IF \E n \in 1..N : sent[n].tag = E.tag /\ replied[n] > 0
               THEN Verdict("C03", "second-reply", <<E.tag, E.type>>)
               ELSE Verdict("C03", "reply-without-request", <<E.tag, E.type>>)
-         /\ UNCHANGED <<sent, replied, away, answers, called, answeredN, live, maybe, nclosed, cclosed>>
+         /\ UNCHANGED <<sent, replied, away, answers, called, answeredN, live, maybe, nclosed, cclosed, dseen>>
   ELSE LET n == IF cands # {} THEN Min(cands) ELSE Max(late)
            t == sent[n].type
            okType == E.type = RespOf[t] \/ E.type = "Rerror"
@@ -97,14 +98,16 @@ OnR ==
                            ELSE {} IN
        /\ ((cands = {}) => Verdict("C07", "reply-after-rflush", <<n, t, E.type>>))
        \* C04: the destruction of a fid is reported no later than the reply that invalidates it
-       /\ (((t = "Tclunk" /\ E.type = "Rclunk") \/ t = "Tremove") /\ sent[n].fid \in live
+       \* (judged only when no other unanswered request names that fid: one in progress legitimately keeps it alive)
+       /\ (((t = "Tclunk" /\ E.type = "Rclunk") \/ t = "Tremove") /\ n \notin dseen /\ answers[n] # {}
+            /\ ~(\E m \in 1..N : m # n /\ replied[m] = 0 /\ sent[n].fid \in {sent[m].fid, sent[m].newfid, sent[m].afid})
               => Verdict("C04", "reply-before-destroy", <<n, t, E.type>>))
        /\ (~okType => Verdict("C03", "wrong-reply-type", <<n, t, E.type>>))
        /\ ((okType /\ ~okPayload) => Verdict("C03", "foreign-payload", <<n, t, E.type, E.payload>>))
        /\ ((okType /\ okPayload /\ ~okSource) => Verdict("C03", "reply-not-from-implementation", <<n, t, E.type>>))
        /\ replied' = [replied EXCEPT ![n] = 1]
        /\ away' = away \cup flushedNow
-       /\ UNCHANGED <<sent, answers, called, answeredN, live, maybe, nclosed, cclosed>>
+       /\ UNCHANGED <<sent, answers, called, answeredN, live, maybe, nclosed, cclosed, dseen>>
 
 (* ---- implementation log ---- *)
 OnCall ==
@@ -119,27 +122,28 @@ OnCall ==
   /\ LET made == (IF E.op = "attach" THEN {E.fid} ELSE IF E.op = "walk" /\ E.newfid # E.fid THEN {E.newfid} ELSE {}) \ {-1} IN
      /\ live' = live \cup made
      /\ maybe' = maybe \ made
-  /\ UNCHANGED <<sent, replied, away, answers, answeredN, nclosed, cclosed>>
+  /\ UNCHANGED <<sent, replied, away, answers, answeredN, nclosed, cclosed, dseen>>
 
 OnAnswer ==
   /\ answers' = [answers EXCEPT ![E.n] = @ \cup {E.payload}]
   /\ answeredN' = answeredN \cup {E.n}
-  /\ UNCHANGED <<sent, replied, away, called, live, maybe, nclosed, cclosed>>
+  /\ UNCHANGED <<sent, replied, away, called, live, maybe, nclosed, cclosed, dseen>>
 
 OnDestroy ==
   /\ IF E.fid \in live THEN /\ live' = live \ {E.fid} /\ maybe' = maybe \ {E.fid}
      ELSE IF E.fid \in maybe THEN /\ maybe' = maybe \ {E.fid} /\ UNCHANGED live
      ELSE /\ Verdict(IF cclosed THEN "C11" ELSE "C04", "double-destroy", <<E.fid, IF cclosed THEN "after-disconnect" ELSE "connected">>)
           /\ UNCHANGED <<live, maybe>>
+  /\ dseen' = dseen \cup {m \in 1..N : replied[m] = 0 /\ sent[m].fid = E.fid /\ sent[m].type \in {"Tclunk", "Tremove"}}
   /\ UNCHANGED <<sent, replied, away, answers, called, answeredN, nclosed, cclosed>>
 
 OnClosed ==
   /\ (nclosed >= 1 => Verdict("C11", "closed-twice", nclosed + 1))
   /\ nclosed' = nclosed + 1
-  /\ UNCHANGED <<sent, replied, away, answers, called, answeredN, live, maybe, cclosed>>
+  /\ UNCHANGED <<sent, replied, away, answers, called, answeredN, live, maybe, cclosed, dseen>>
 
 OnCClose == /\ cclosed' = TRUE
-            /\ UNCHANGED <<sent, replied, away, answers, called, answeredN, live, maybe, nclosed>>
+            /\ UNCHANGED <<sent, replied, away, answers, called, answeredN, live, maybe, nclosed, dseen>>
 
 (* ---- quiescence with the connection open: E.held = requests the driver keeps in the implementation,
         E.parked = schedule points still occupied (none expected other than the held calls) ---- *)
@@ -163,7 +167,7 @@ OnQuiet ==
             IF IsFlush(n) THEN Verdict("C07", "flush-unanswered", <<n, sent[n].oldtag>>) /\ Verdict("C03", "unanswered", <<n, sent[n].type>>)
             ELSE IF Held # {} THEN Verdict("C08", "delayed-by-held", <<n, sent[n].type, Held>>)
             ELSE Verdict("C03", "unanswered", <<n, sent[n].type>>)
-  /\ UNCHANGED <<sent, replied, away, answers, called, answeredN, live, maybe, nclosed, cclosed>>
+  /\ UNCHANGED <<sent, replied, away, answers, called, answeredN, live, maybe, nclosed, cclosed, dseen>>
 
 (* ---- fid probe after quiescence: E.fid, E.valid; the monitor only judges fids whose history in
         this case is a single cancelled request (CancelLeavesNothing) ---- *)
@@ -177,32 +181,32 @@ OnProbe ==
            => Verdict("C07", "cancelled-request-left-fid", <<f, creators>>))
      /\ ((E.initial /\ creators = {} /\ clunkers # {} /\ clunkers \subseteq away /\ ~E.valid)
            => Verdict("C07", "cancelled-clunk-took-effect", <<f, clunkers>>))
-  /\ UNCHANGED <<sent, replied, away, answers, called, answeredN, live, maybe, nclosed, cclosed>>
+  /\ UNCHANGED <<sent, replied, away, answers, called, answeredN, live, maybe, nclosed, cclosed, dseen>>
 
 (* ---- end of case: after the disconnect and after everything that can run has run ---- *)
 OnEnd ==
   /\ (cclosed /\ nclosed # 1) => Verdict("C11", "closed-count", nclosed)
   /\ (cclosed /\ live # {}) => Verdict("C11", "fid-not-destroyed", live)
   /\ (Len(E.parked) > 0) => Verdict("C11", "stuck-after-disconnect", E.parked)
-  /\ UNCHANGED <<sent, replied, away, answers, called, answeredN, live, maybe, nclosed, cclosed>>
+  /\ UNCHANGED <<sent, replied, away, answers, called, answeredN, live, maybe, nclosed, cclosed, dseen>>
 
 OnCrash ==   \* the server process panicked while serving this case: nothing outstanding is answered
   /\ Verdict("C06", "server-crash", E.what)
   /\ Verdict("C03", "server-crash", E.what)
-  /\ UNCHANGED <<sent, replied, away, answers, called, answeredN, live, maybe, nclosed, cclosed>>
+  /\ UNCHANGED <<sent, replied, away, answers, called, answeredN, live, maybe, nclosed, cclosed, dseen>>
 
 OnBystander ==   \* a request on another connection, driven with this connection's goroutines paused
   /\ (~E.ok => Verdict(IF cclosed THEN "C11" ELSE "C08", "bystander-disturbed", E.what))
-  /\ UNCHANGED <<sent, replied, away, answers, called, answeredN, live, maybe, nclosed, cclosed>>
+  /\ UNCHANGED <<sent, replied, away, answers, called, answeredN, live, maybe, nclosed, cclosed, dseen>>
 
 OnInitFid == /\ live' = live \cup {E.fid}
-             /\ UNCHANGED <<sent, replied, away, answers, called, answeredN, maybe, nclosed, cclosed>>
+             /\ UNCHANGED <<sent, replied, away, answers, called, answeredN, maybe, nclosed, cclosed, dseen>>
 
 OnLeftover ==
   /\ Verdict("C11", "goroutines-left", E.what)
-  /\ UNCHANGED <<sent, replied, away, answers, called, answeredN, live, maybe, nclosed, cclosed>>
+  /\ UNCHANGED <<sent, replied, away, answers, called, answeredN, live, maybe, nclosed, cclosed, dseen>>
 
-Skip == UNCHANGED <<sent, replied, away, answers, called, answeredN, live, maybe, nclosed, cclosed>>
+Skip == UNCHANGED <<sent, replied, away, answers, called, answeredN, live, maybe, nclosed, cclosed, dseen>>
 
 Next ==
   \/ /\ i <= Len(Ext)
@@ -226,7 +230,7 @@ Next ==
                   [] OTHER -> Skip
   \/ /\ i = Len(Ext) + 1 /\ ~done /\ done' = TRUE
      /\ PrintT(<<"CONSUMED", Len(Ext)>>)
-     /\ UNCHANGED <<i, case, sent, replied, away, answers, called, answeredN, live, maybe, nclosed, cclosed>>
+     /\ UNCHANGED <<i, case, sent, replied, away, answers, called, answeredN, live, maybe, nclosed, cclosed, dseen>>
 
 Spec == Init /\ [][Next]_mvars
 =============================================================================
